@@ -108,6 +108,16 @@ func strLenForSize(sz int) (int, bool) {
 	return 0, false
 }
 
+// encodableSize returns sz, or the next size some string encodes to (25 and 258 are not CBOR text-string sizes).
+func encodableSize(sz int) int {
+	for {
+		if _, ok := strLenForSize(sz); ok {
+			return sz
+		}
+		sz++
+	}
+}
+
 func mkString(id, sz int) testutils.StringValue {
 	n, ok := strLenForSize(sz)
 	if !ok {
